@@ -114,6 +114,21 @@ def _vector_degree(vector: object) -> Optional[int]:
     return max_deg
 
 
+def _summed_elements(expr: Expression) -> list[Expression] | None:
+    """Elements added up by ``(vector expression).sum()`` / ``matrix.sum()``, else None."""
+    from optyx.core.matrices import MatrixSum
+    from optyx.core.vectors import VectorExpressionSum
+
+    if isinstance(expr, VectorExpressionSum):
+        return list(expr.expression._expressions)
+    if isinstance(expr, MatrixSum):
+        grid = getattr(expr.matrix, "_variables", None)
+        if grid is None:
+            grid = expr.matrix._expressions
+        return [element for row in grid for element in row]
+    return None
+
+
 def _vector_node_degree(expr: Expression) -> tuple[bool, Optional[int]]:
     """Degree of a vector reduction node as (handled, degree).
 
@@ -148,6 +163,16 @@ def _vector_node_degree(expr: Expression) -> tuple[bool, Optional[int]]:
         return True, _power_degree(expr.power)
     if isinstance(expr, (VectorUnarySum, ElementwiseUnary)):
         return True, None
+    elements = _summed_elements(expr)
+    if elements is not None:
+        # (2 * x).sum(), (costs * X).sum(), X.sum(): the largest element degree
+        max_deg = 0
+        for element in elements:
+            d = compute_degree(element)
+            if d is None:
+                return True, None
+            max_deg = max(max_deg, d)
+        return True, max_deg
     return False, None
 
 
@@ -573,6 +598,11 @@ def _extract_coefficient_impl(expr: Expression, var: Variable) -> float:
                 return 1.0
         return 0.0
 
+    # (vector expression).sum() / matrix.sum(): add up the elements
+    elements = _summed_elements(expr)
+    if elements is not None:
+        return sum(_extract_coefficient_impl(e, var) for e in elements)
+
     # Binary operations
     if isinstance(expr, BinaryOp):
         if expr.op == "+":
@@ -673,6 +703,10 @@ def _extract_constant_impl(expr: Expression) -> float:
                 for i, elem in enumerate(elements)
             )
         return sum(_extract_constant_impl(elem) for elem in elements)
+
+    elements = _summed_elements(expr)
+    if elements is not None:
+        return sum(_extract_constant_impl(e) for e in elements)
 
     if isinstance(expr, BinaryOp):
         # A variable-free sub-expression such as Constant(2) ** 3 is its value
@@ -921,6 +955,13 @@ def _extract_all_coefficients_impl(
             idx = var_index.get(var.name)
             if idx is not None:
                 result[idx] += multiplier
+        return
+
+    # (vector expression).sum() / matrix.sum(): add up the elements
+    elements = _summed_elements(expr)
+    if elements is not None:
+        for element in elements:
+            _extract_all_coefficients_impl(element, var_index, result, multiplier)
         return
 
     # LinearCombination: c @ x - coefficient is c[i] * multiplier
